@@ -435,3 +435,144 @@ def explore(prog, S, fn, site, obj):
                 if s is not None and s >= 0:
                     work.append((s, nst, assume))
     return bad
+
+
+# ------------------------------------------------------------------ boundary constants in double comparisons
+def run_bounds(prog, res, prop, rule, units, floor=1):
+    """A double compared with an integer constant that binary64 cannot represent is compared with the rounded
+    constant.  `x > C` with C rounding up to C' misses x == C' (which is > C); `x >= C` is still right for
+    integer-valued x.  (SEXP_MAX_FIXNUM = 2^62-1 rounds to 2^62.)"""
+    stat = res.stat(rule, "doubles compared with integer constants outside the exactly representable range use the "
+                    "operator that stays correct under rounding of the constant", floor=floor)
+    for fn in prog.all_funcs():
+        if fn.unit.name not in units or not fn.blocks:
+            continue
+        for i, nd in enumerate(fn.nodes):
+            if nd["k"] != "bin" or nd["o"] not in ("<", "<=", ">", ">="):
+                continue
+            l, r = nd["c"]
+            for (a, b, flip) in ((l, r, False), (r, l, True)):
+                ta = fn.type(fn.strip(a)) or ""
+                cv = fn.const_val(b)
+                if ta not in ("double", "float", "long double") or not isinstance(cv, int) or abs(cv) <= 2 ** 53:
+                    continue
+                rounded = int(float(cv))
+                if rounded == cv:
+                    continue
+                stat.sites += 1
+                stat.obligations += 1
+                o = nd["o"]
+                if flip:
+                    o = {"<": ">", "<=": ">=", ">": "<", ">=": "<="}[o]
+                # o relates the double (left) to the constant (right)
+                wrong = (o in (">", "<=")) if rounded > cv else (o in ("<", ">="))
+                if not wrong:
+                    stat.discharged += 1
+                    stat.sample({"site": fn.where(i), "function": fn.name, "compare": "%s %s %d" % (fn.txt(a)[:30], o, cv)})
+                    continue
+                res.add(Finding(prop, rule + ".rounded-boundary", fn.name, "%s %s %d" % (fn.txt(fn.strip(a))[:40], o, cv), fn.where(i),
+                                "%s compares the double %s with %d, which binary64 rounds to %d: `%s` then %s the value %d "
+                                "itself, so a double equal to %d takes the wrong side (it is boxed as a fixnum that does not hold it)"
+                                % (fn.name, fn.txt(fn.strip(a))[:40], cv, rounded, o,
+                                   "lets through" if o in (">", "<") else "rejects", rounded, rounded),
+                                unit=fn.unit.display))
+    return stat
+
+
+# ------------------------------------------------------------------ integers that went through a double
+def _double_leaves(fn, n, out, depth=0):
+    n = fn.strip(n)
+    nd = fn.nodes[n]
+    if (fn.type(n) or "") in ("double", "float", "long double"):
+        out.append(n)
+        return
+    if nd["k"] == "call" or depth > 12:
+        return
+    for c in nd.get("c", []):
+        _double_leaves(fn, c, out, depth + 1)
+
+
+def run_fromdouble(prog, res, prop, rule, units, floor=0):
+    """A decoder that accumulates an integer's digits in a double and boxes the result as a fixnum returns a
+    different integer for every value above 2^53 (the fixnum range is 2^62).  Such a boxing is accepted only
+    where a comparison that holds on every path bounds the double's magnitude by a constant <= 2^53."""
+    from rules import c01i
+    stat = res.stat(rule, "no fixnum is boxed from a double whose magnitude may exceed 2^53", floor=floor)
+    for fn in prog.all_funcs():
+        if fn.unit.name not in units or not fn.blocks:
+            continue
+        cx = None
+        done = set()
+        for i, nd in enumerate(fn.nodes):
+            x = c01i.box_operand(fn, i)
+            if x is None or fn.strip(i) in done:
+                continue
+            done.add(fn.strip(i))
+            dl = []
+            _double_leaves(fn, x, dl)
+            if not dl:
+                continue
+            cx = cx or c01i.Ctx(fn)
+            pos = c01i.enclosing_elem(fn, i, cx.pos)
+            if pos is None:
+                continue
+            stat.sites += 1
+            stat.obligations += 1
+            decls = {fn.nodes[m]["d"] for d in dl for m in fn.subtree(d) if fn.nodes[m]["k"] == "ref" and "d" in fn.nodes[m]}
+            upper = lower = False
+            for (a, pol, _g) in c01i.facts_at(cx, pos):
+                an = fn.nodes[a]
+                if an["k"] != "bin" or an["o"] not in ("<", "<=", ">", ">="):
+                    continue
+                for (e, c, flip) in ((an["c"][0], an["c"][1], False), (an["c"][1], an["c"][0], True)):
+                    cv = fn.float_val(c)
+                    if not isinstance(cv, (int, float)) or (fn.type(fn.strip(e)) or "") not in ("double", "float", "long double"):
+                        continue
+                    if abs(cv) > 2 ** 53:
+                        continue
+                    refs = {fn.nodes[m]["d"] for m in fn.subtree(e) if fn.nodes[m]["k"] == "ref" and "d" in fn.nodes[m]}
+                    if not (refs & decls):
+                        continue
+                    o = an["o"]
+                    if flip:
+                        o = {"<": ">", "<=": ">=", ">": "<", ">=": "<="}[o]
+                    if not pol:
+                        o = {"<": ">=", "<=": ">", ">": "<=", ">=": "<"}[o]
+                    isabs = "fabs" in fn.txt(e)
+                    if o in ("<", "<="):
+                        upper = True
+                        lower = lower or isabs
+                    else:
+                        lower = True
+            if upper and lower:
+                stat.discharged += 1
+                continue
+            res.add(Finding(prop, rule + ".lossy-integer", fn.name, fn.txt(x)[:40], fn.where(i),
+                            "%s boxes a fixnum from the double %s with no bound <= 2^53 on its magnitude holding on every path: "
+                            "an integer above 9007199254740992 that was accumulated in that double comes back as a different integer"
+                            % (fn.name, fn.txt(x)[:40]), unit=fn.unit.display))
+    return stat
+
+
+def bounds_witnesses(prog, res):
+    """the two numeric-boundary rules expect zero sites in json.c today: positive and negative examples
+    are analysed with the same code on every run so the rules cannot pass vacuously"""
+    import os
+    import extract
+    import report
+    path = os.path.join(extract.VERIF, "selftest", "witness", "bounds.c")
+    wp = extract.load_program(prog.config, only={"<none>"}, extra_sources=[(path, [])])
+    tmp = report.Result("C04", "quick")
+    run_bounds(wp, tmp, "C04", "W.d", {"bounds.c"}, floor=0)
+    run_fromdouble(wp, tmp, "C04", "W.e", {"bounds.c"}, floor=0)
+    flagged = {f.function for f in tmp.findings + tmp.advisories}
+    n = 0
+    for name in sorted(wp.units[0].functions):
+        if name.startswith("witness_bad_"):
+            n += 1
+            res.witness.append((name, name in flagged))
+        elif name.startswith("witness_ok_"):
+            n += 1
+            res.witness.append((name, name not in flagged))
+    if n < 8:
+        res.broken.append("numeric-boundary witness file yielded only %d functions" % n)
